@@ -1153,6 +1153,27 @@ impl DistributedTxCoordinator {
         let recovery_state = TxRecoveryState::from_wal(&wal.read())
             .map_err(|e| ChainError::StorageError(format!("WAL replay failed: {e}")))?;
 
+        // Lock handles come from a process-wide counter that restarts at 1 with the process,
+        // while the WAL keeps the handles the previous process handed out. Move the counter past
+        // every handle a recovered transaction (or an orphaned lock) still carries, so that
+        // releasing by such a handle can never hit a lock acquired after the restart.
+        let max_logged_handle = recovery_state
+            .prepared_txs
+            .iter()
+            .chain(&recovery_state.committing_txs)
+            .chain(&recovery_state.aborting_txs)
+            .flat_map(|tx| tx.votes.iter())
+            .filter_map(|(_, vote)| match vote {
+                crate::tx_wal::PrepareVoteKind::Yes { lock_handle } => Some(*lock_handle),
+                crate::tx_wal::PrepareVoteKind::No => None,
+            })
+            .chain(recovery_state.orphaned_locks.iter().map(|o| o.lock_handle))
+            .filter(|h| *h < LOCK_HANDLE_HIGH_WATER)
+            .max();
+        if let Some(handle) = max_logged_handle {
+            LOCK_COUNTER.fetch_max(handle + 1, Ordering::Relaxed);
+        }
+
         let mut stats = RecoveryStats::default();
         let mut pending = self.pending.write();
 
